@@ -410,3 +410,33 @@ PROPS["C15"] = {
     "quick": {"stages": [{"kind": "replay"}, {"kind": "rc", "procs": 6, "cases": 18, "maxlen": 400}]},
     "thorough": {"stages": [{"kind": "replay"}, {"kind": "rc", "procs": 8, "cases": 600, "maxlen": 400}]},
 }
+
+PROPS["C09"] = {
+    "hang_s": 90,
+    "noshrink": True,  # a case takes seconds and depends on OS scheduling: the unshrunk input is the replay file
+    "source": "c09_concurrent.cc",
+    "level": "exploration",
+    "fuzz": False,
+    "replay_config": "tsan",
+    "rule": ("one case = an Http::Endpoint with 1-4 workers serving one shared Rest::Router (routes with parameters, an optional final parameter and a wildcard under GET/POST/PUT/DELETE/HEAD/OPTIONS), "
+             "1-8 raw keep-alive client threads issuing 1-40 requests each from a generated mix over 8 methods x 8 path shapes: registered routes, paths that exist only under other methods (405), "
+             "unknown paths (404), methods that have no table at all (PATCH, TRACE: first use from several workers at once), response sizes 0..64 KiB; and a shutdown point: idle, with "
+             "connections open, or after a generated fraction of the requests (in flight). Oracle: every answered request got exactly one response whose status and Allow set follow the "
+             "harness's own table and whose body carries that request's tag, method, bound parameter and body digest; shutdown()+destruction return within 10 s, the process thread count is "
+             "back to its value from before the endpoint, a later connection is not served; and (tsan stage) no ThreadSanitizer report contains a frame in /repo/src or /repo/include/pistache. "
+             "The same cases run under the asan build and under the tsan build. One case in three is instead a shared-router case without sockets: 2-4 plain threads call "
+             "Router::route() on one shared router with generated requests (statuses checked against the same table) - nothing orders those threads, so under the tsan build any unsynchronised "
+             "access to the router's shared state is reported whatever the timing. Non-trivial = >=2 workers, >=2 clients and >=3 methods in the mix, or a shutdown point other than idle; "
+             "distinct = hash of the configuration and choice stream. oracle_subchecks = cases run."),
+    "engine": "rapidcheck (asan and tsan builds)",
+    "technique": "property-based testing (rapidcheck) of generated load / shutdown configurations against a live multi-worker endpoint under ThreadSanitizer and AddressSanitizer; oracle = per-request response identity against an independent route table, shutdown/thread-count bounds, sanitizer reports filtered to pistache frames",
+    "level_text": "Decides the functional half (exactly one correct response per request, shutdown terminates, threads gone) on generated configurations; the race-freedom half only as far as a dynamic detector on OS-chosen schedules can. Schedules are sampled, not owned.",
+    "level_note": "ThreadSanitizer treats socket operations as synchronisation, which hides races in socket-heavy code, so a clean tsan stage is weak evidence of race-freedom (stated in DESIGN.md section 3, C09 and section 6). Measured: with the Router::route insertion race put back, the wire-level cases alone reported it in 0 of 3 quick runs (and in 2 of about 7 runs while the machine was loaded); the in-process shared-router cases report it in the search and deterministically from the saved regression inputs. Races confined to the transport / reactor are therefore only sampled. Requests still unanswered when an in-flight shutdown hits may fail; only a wrong or second answer is a violation there. This check also carries the wire-level 405/Allow-set comparison of C10.",
+    "assumptions": ["a ThreadSanitizer report is attributed to pistache when one of its stacks has a frame under /repo/src or /repo/include/pistache", "10 s / 5 s bounds for shutdown and thread exit are far above typical milliseconds (3x replay rule)"],
+    "quick": {"stages": [{"kind": "replay", "config": "tsan"},
+                         {"kind": "rc", "config": "asan", "procs": 4, "cases": 6, "maxlen": 400},
+                         {"kind": "rc", "config": "tsan", "procs": 4, "cases": 10, "maxlen": 400}]},
+    "thorough": {"stages": [{"kind": "replay", "config": "tsan"},
+                            {"kind": "rc", "config": "asan", "procs": 6, "cases": 80, "maxlen": 400},
+                            {"kind": "rc", "config": "tsan", "procs": 6, "cases": 120, "maxlen": 400}]},
+}
